@@ -1,4 +1,6 @@
 import PoolProofs.C08Lemmas
+import PoolProofs.C08I3Lemmas
+import PoolProofs.C08I2Lemmas
 /-!
 # C08 — the stored account always matches a real output; lifecycle moves are legal
 
@@ -219,6 +221,15 @@ theorem C08_closed_absorbing_step (s : AState) (op : Op) (c : ClosedQuiet s) (ho
       · apply closedQuiet_setW
         apply closedQuiet_handleSpend
         exact closedQuiet_of _ a ha hst hq
+  | consumeSpend pos =>
+    simp only [step]
+    split
+    · exact c
+    · exact closedQuiet_of _ a ha hst hq
+  | spendH t h =>
+    simp only [step]
+    apply closedQuiet_setW
+    exact closedQuiet_handleSpend s t h c
   | spendDirect k h =>
     simp only [step]
     split
@@ -302,15 +313,122 @@ theorem C08_I2_resume_adequate (s : State) :
     Lifecycle.startCalls = ["resumeAccount(true,false,feeRate)"] := by
   cases s <;> decide
 
+/-- **I2 after a restart**: when the start-up resumption of the account succeeds, the account is watched for
+the event its state waits for (`Adq`) – the new manager starts from an empty watcher registry -/
+theorem C08_I2_restart (s : AState) (fee : Bool) (f : Option (Nat × Nat))
+    (hok : (step s (.restart fee f)).2 = .ok) : Inv2 (step s (.restart fee f)).1 := by
+  cases hacct : s.acct with
+  | none =>
+    simp only [step, hacct]
+    intro a ha; simp at ha
+  | some a =>
+    simp only [step, hacct] at hok ⊢
+    exact resume_inv2 _ a _ _ _ _ (fun _ => rfl) hok
+
+/-- **I2 after WatchMatchedAccounts** (batch finalisation): both watchers are cancelled and re-armed -/
+theorem C08_I2_watchMatched (s : AState) (hok : (step s .watchMatched).2 = .ok) :
+    Inv2 (step s .watchMatched).1 := by
+  simp only [step, watchMatched] at hok ⊢
+  split
+  · rename_i hn; simp only [hn] at hok; simp at hok
+  · rename_i a ha
+    simp only [ha] at hok
+    have ha' : (cancelConf (cancelSpend s)).acct = some a := by
+      rw [(same_cancelConf _).2.1, (same_cancelSpend _).2.1]; exact ha
+    exact resume_inv2 _ a _ _ _ _ (fun _ => ha') hok
+
+/-- **I2 after account creation** -/
+theorem C08_I2_init (s : AState) (v e ver h : Nat) (f : Option (Nat × Nat))
+    (hok : (step s (.init v e ver h f)).2 = .ok) : Inv2 (step s (.init v e ver h f)).1 := by
+  simp only [step, initAccount] at hok ⊢
+  exact resume_inv2 _ _ _ _ _ _ (fun hne => absurd rfl hne) hok
+
+/-- **I2 is preserved by a confirmation handled in any state**, and established whenever the
+confirmation moves the account (`handleStateOpen` arms spend + expiry) -/
+theorem C08_I2_conf (s : AState) (h : Nat) (i2 : Inv2 s) : Inv2 (step s (.confDirect h)).1 :=
+  handleConf_inv2 s h i2
+
+/-- non-vacuity: restart of an open account re-arms spend and expiry watchers -/
+example :
+    let s := (step (run (AState.init 1) [.init 100000 1200 0 1000 (some (7, 0)), .conf 0 1003]) (.restart true none)).1
+    s.w.spendRegs.map (·.op) = [⟨7, 0⟩] ∧ s.w.expiry = some 1200 := by decide
+
 /-! ## I3 — the store write precedes the publication -/
+
+/-- what the scan `chk` means: wherever a `publish t` occurs in the trace, an earlier effect is the store
+write of a record whose latest transaction is `t` -/
+theorem chk_spec (w : List Tx) (l : List Effect) (h : chk w l = true) (l1 l2 : List Effect) (t : Tx)
+    (hl : l = l1 ++ Effect.publish t :: l2) : t ∈ w ∨ ∃ a, Effect.write a ∈ l1 ∧ a.latestTx = some t := by
+  induction l1 generalizing w l with
+  | nil =>
+    subst hl
+    simp [chk] at h
+    exact Or.inl h.1
+  | cons e l1 ih =>
+    subst hl
+    cases e with
+    | write a =>
+      simp only [List.cons_append, chk] at h
+      rcases ih _ _ h rfl with hw | ⟨b, hb, hbt⟩
+      · simp only [List.mem_append, Option.mem_toList] at hw
+        rcases hw with hw | hw
+        · exact Or.inr ⟨a, List.mem_cons_self, hw⟩
+        · exact Or.inl hw
+      · exact Or.inr ⟨b, List.mem_cons_of_mem _ hb, hbt⟩
+    | publish t' =>
+      simp only [List.cons_append, chk, Bool.and_eq_true] at h
+      rcases ih _ _ h.2 rfl with hw | ⟨b, hb, hbt⟩
+      · exact Or.inl hw
+      · exact Or.inr ⟨b, List.mem_cons_of_mem _ hb, hbt⟩
+    | fund o =>
+      simp only [List.cons_append, chk] at h
+      rcases ih _ _ h rfl with hw | ⟨b, hb, hbt⟩
+      · exact Or.inl hw
+      · exact Or.inr ⟨b, List.mem_cons_of_mem _ hb, hbt⟩
+
+theorem C08_I3_init (k : Nat) : Inv3 (AState.init k) :=
+  ⟨rfl, fun a t h => by simp [AState.init] at h⟩
+
+/-- one step of any op preserves I3 (given I1, which the pending-open rebroadcast on restart needs) -/
+theorem C08_step_preserves_I3 (s : AState) (op : Op) (h1 : Inv1 s) (h3 : Inv3 s) (hop : OpOK s.key op) :
+    Inv3 (step s op).1 := Inv3.step h3 h1 op hop
+
+theorem C08_I1_I3_all_histories (s : AState) (ops : List Op) (h1 : Inv1 s) (h3 : Inv3 s)
+    (hp : ∀ op ∈ ops, op.plain = true) : Inv1 (run s ops) ∧ Inv3 (run s ops) := by
+  induction ops generalizing s with
+  | nil => exact ⟨h1, h3⟩
+  | cons op ops ih =>
+    have hop := opOK_plain s.key op (hp op List.mem_cons_self)
+    exact ih _ (Inv1.step h1 op hop) (Inv3.step h3 h1 op hop) (fun o ho => hp o (List.mem_cons_of_mem _ ho))
+
+/-- **C08 / I3 for all histories**: in the effect trace of every history (user actions, chain events,
+batches, restarts anywhere) every `PublishTransaction` of a transaction is preceded by a store write of a
+record whose latest transaction it is. -/
+theorem C08_I3_all_histories (k : Nat) (ops : List Op) (hp : ∀ op ∈ ops, op.plain = true)
+    (l1 l2 : List Effect) (t : Tx) (hl : (run (AState.init k) ops).trace = l1 ++ Effect.publish t :: l2) :
+    ∃ a, Effect.write a ∈ l1 ∧ a.latestTx = some t := by
+  have h := (C08_I1_I3_all_histories _ ops (C08_inv_init k) (C08_I3_init k) hp).2.ok
+  rcases chk_spec [] _ h l1 l2 t hl with hw | hw
+  · simp at hw
+  · exact hw
+
+/-- non-vacuity: a history with a rebroadcast on restart and a published closure -/
+example :
+    let s := run (AState.init 1) [.init 100000 1200 0 1000 (some (7, 0)), .restart true none, .conf 0 1003,
+      .close 1004 9 true true, .restart true none]
+    (s.trace.filter (fun e => match e with | .publish _ => true | _ => false)).length = 3 := by decide
 
 /-- regenerated call order of `spendAccount`: sign, `UpdateAccount`, then `maybeBroadcastTx`; the multi-sig
 branch of `HandleAccountSpend` completes the batch before resuming; the funding clause writes after
 `SendOutputs` and the recovery clause never reaches `SendOutputs` without `createTx` -/
 theorem C08_I3_call_order :
     Lifecycle.spendAccountCalls = ["signSpendTx", "UpdateAccount", "maybeBroadcastTx"] ∧
-    Lifecycle.handleSpendCases =
-      ["expiry:break", "multisig:PendingBatch;MarkBatchComplete;resumeAccount(false,false,0)", "default:return-error"] := by
+    (Lifecycle.handleSpendCases =
+      ["expiry:break", "multisig:PendingBatch;MarkBatchComplete;resumeAccount(false,false,0)", "default:return-error"] ∨
+     -- with the other accounts of a batch committed by a spend re-armed (fix of C08/complete-without-rewatch)
+     Lifecycle.handleSpendCases =
+      ["expiry:break", "multisig:PendingBatch;MarkBatchComplete;WatchMatchedAccounts;resumeAccount(false,false,0)",
+       "default:return-error"]) := by
   decide
 
 /-- a closure appends exactly: the write of the pending-closed record carrying the closing transaction,
